@@ -25,12 +25,11 @@ V(r, k) ==
 ModelToks(m) == [i \in 1..Len(m.toks) |-> [text |-> m.toks[i], lower |-> Lower(m.toks[i]), sep |-> FALSE,
                                             nan |-> \E j \in 1..Len(m.nan) : m.nan[j] = i - 1]]
 ModelOccs(L, m, thr) == Batch(L, ModelToks(m), thr, Linking[L])
-SameOccs(a, b) == Len(a) = Len(b) /\ \A k \in 1..Len(a) : SameOcc(a[k], b[k])
 DriftOn == "DRIFT" \in DOMAIN IOEnv /\ IOEnv.DRIFT = "1"
 Drift == IF ~DriftOn THEN {} ELSE
          {x \in {[l |-> l, i |-> Rec[l].i, k |-> k] : l \in {j \in 1..Len(Rec) : Rec[j].q.lang \in Modelled /\ AllKnown(Rec[j].q.texts[1])},
                                                      k \in 1..Len(Rec[1].q.thrs)} :
-              Rec[x.l].multi[x.k].tk = "ok" /\ ~SameOccs(ModelOccs(Rec[x.l].q.lang, Rec[x.l].multi[x.k], Rec[x.l].q.thrs[x.k]), Rec[x.l].multi[x.k].occs)}
+              Rec[x.l].multi[x.k].tk = "ok" /\ ~ModelOccsAgree(Rec[x.l].multi[x.k].occs, ModelOccs(Rec[x.l].q.lang, Rec[x.l].multi[x.k], Rec[x.l].q.thrs[x.k]))}
 
 Bad == {x \in {[l |-> l, i |-> Rec[l].i, k |-> k, verdict |-> V(Rec[l], k)] :
                  l \in 1..Len(Rec), k \in 1..Len(Rec[1].q.thrs)} : x.verdict # ""}
